@@ -20,6 +20,7 @@ THEOREMS = ["Cog.Builder." + t for t in [
 PROPOSED = os.path.join(WORK, "proposed_findings_C17.json")
 WITNESSES = ["dup-option-default", "dup-builder-default", "dismissed", "rename-args-constraint",
              "promote-array-to-append", "merge-rename-arguments", "map-index-unfold", "sf-opts-after-append"]
+GO_ONLY_PINNED = ["compose-then-initialize"]
 FILES = HARNESS_BASE + ["vir_builders.go", "c16_*.go", "c17_*.go"]
 
 
@@ -97,6 +98,17 @@ def main():
         else:
             c.oblige("witness %s still fails on the real code (else: the model and the _counterexample theorem must change with the code)" % name, False, row[2])
         c.count("c17-pinned", 1, [row[0]])
+
+    # 1b. pinned inputs of findings the Lean model does not cover (hazard domain): real code + oracle only
+    for name in GO_ONLY_PINNED:
+        case = "0:0:pinned:%s:" % name
+        row = harness(hb, "c17-eval", case=case)[0]
+        if row[2].startswith("FAIL"):
+            if not c.match_known(row[0] + "\t" + row[2]):
+                c.violation({"kind": "oracle-failure", "stream": "c17-pinned", "case": case, "request": row[0], "impl": row[1], "oracle": row[2]})
+        else:
+            log("pinned input %s no longer fails on the real code" % name)
+        c.count("c17-pinned", 1, [case])
 
     # 2. correspondence + oracle
     n = 2500 if c.tier == "quick" else 60000
